@@ -42,6 +42,7 @@ type Prog struct {
 	Tolerated []string
 	LoadS     float64
 	nf        *newFnInfo
+	bound     map[*ssa.Parameter][]ssa.Value // parameters of helpers being analysed in place -> the arguments of that call
 }
 
 func isCanopyPath(p string) bool { return p == modPath || strings.HasPrefix(p, modPath+"/") }
